@@ -36,7 +36,7 @@ from unified_planning.model.problem_kind_versioning import LATEST_PROBLEM_KIND_V
 from unified_planning.model.walkers.free_vars import FreeVarsExtractor
 from unified_planning.engines.compilers.utils import replace_action
 from fractions import Fraction
-from typing import Optional, Union, List, Dict, Set
+from typing import Optional, Union, List, Dict, Set, Tuple
 from functools import partial
 from collections import defaultdict
 
@@ -276,18 +276,21 @@ class UndefinedInitialNumericRemover(engines.engine.Engine, CompilerMixin):
                         if fluent_exp.fluent() in is_value_defined_fluents:
                             undef_fluent_exps.add(fluent_exp)
 
-                # fluents that are the target of some effect of this action
+                # fluents that are the target of some effect of this action, with
+                # the condition (and quantified variables) under which they are written
                 affected_undef_fluent_exps = set()
                 for eff in action.effects:
                     if eff.fluent.fluent() in is_value_defined_fluents:
-                        affected_undef_fluent_exps.add(eff.fluent)
+                        affected_undef_fluent_exps.add(
+                            (eff.fluent, eff.condition, eff.forall)
+                        )
 
                 for fluent_exp in undef_fluent_exps:
                     action.add_precondition(
                         is_value_defined_fluents[fluent_exp.fluent()](*fluent_exp.args)
                     )
 
-                for fluent_exp in affected_undef_fluent_exps:
+                for fluent_exp, condition, forall in affected_undef_fluent_exps:
                     # if this ground instance was already read above (increase/decrease
                     # effects always are), its tracker is already a precondition and is
                     # therefore already guaranteed to be True; no need to set it again
@@ -297,6 +300,8 @@ class UndefinedInitialNumericRemover(engines.engine.Engine, CompilerMixin):
                                 *fluent_exp.args
                             ),
                             True,
+                            condition,
+                            forall,
                         )
 
             elif isinstance(action, DurativeAction):
@@ -307,7 +312,7 @@ class UndefinedInitialNumericRemover(engines.engine.Engine, CompilerMixin):
                 for timeinterval, conditions in action.conditions.items():
                     timing_to_expressions[timeinterval.lower] += conditions
 
-                affected_undef_fluent_exps_map: Dict[Timing, Set[FNode]] = defaultdict(
+                affected_undef_fluent_exps_map: Dict[Timing, Set[Tuple]] = defaultdict(
                     set
                 )
                 for timing, effects in action.effects.items():
@@ -319,7 +324,7 @@ class UndefinedInitialNumericRemover(engines.engine.Engine, CompilerMixin):
                     ]
                     timing_to_expressions[timing] += [eff.condition for eff in effects]
                     affected_undef_fluent_exps_map[timing].update(
-                        eff.fluent
+                        (eff.fluent, eff.condition, eff.forall)
                         for eff in effects
                         if eff.fluent.fluent() in is_value_defined_fluents
                     )
@@ -348,7 +353,7 @@ class UndefinedInitialNumericRemover(engines.engine.Engine, CompilerMixin):
                         )
 
                 for timing, fluent_exps in affected_undef_fluent_exps_map.items():
-                    for fluent_exp in fluent_exps:
+                    for fluent_exp, condition, forall in fluent_exps:
                         # see the InstantaneousAction case above: skip if already read
                         # (and thus already required to be defined) at this same timing
                         if fluent_exp not in timing_to_undef_fluent_exps.get(
@@ -360,6 +365,8 @@ class UndefinedInitialNumericRemover(engines.engine.Engine, CompilerMixin):
                                     *fluent_exp.args
                                 ),
                                 True,
+                                condition,
+                                forall,
                             )
 
     def _compile_goals(
@@ -389,7 +396,7 @@ class UndefinedInitialNumericRemover(engines.engine.Engine, CompilerMixin):
         for timeinterval, goals in problem.timed_goals.items():
             timing_to_expressions[timeinterval.lower].extend(goals)
 
-        affected_undef_fluent_exps: Dict[Timing, Set[FNode]] = defaultdict(set)
+        affected_undef_fluent_exps: Dict[Timing, Set[Tuple]] = defaultdict(set)
         for timing, effects in problem.timed_effects.items():
             for eff in effects:
                 timing_to_expressions[timing].append(eff.value)
@@ -398,7 +405,7 @@ class UndefinedInitialNumericRemover(engines.engine.Engine, CompilerMixin):
                     timing_to_expressions[timing].append(eff.fluent)
 
                 affected_undef_fluent_exps[timing].update(
-                    eff.fluent
+                    (eff.fluent, eff.condition, eff.forall)
                     for eff in effects
                     if eff.fluent.fluent() in is_value_defined_fluents
                 )
@@ -418,12 +425,14 @@ class UndefinedInitialNumericRemover(engines.engine.Engine, CompilerMixin):
                 )
 
         for timing, fluent_exps in affected_undef_fluent_exps.items():
-            for fluent_exp in fluent_exps:
+            for fluent_exp, condition, forall in fluent_exps:
                 if fluent_exp not in timing_to_undef_fluent_exps.get(timing, set()):
                     problem.add_timed_effect(
                         timing,
                         is_value_defined_fluents[fluent_exp.fluent()](*fluent_exp.args),
                         True,
+                        condition,
+                        forall,
                     )
 
     def _compile_quality_metrics(
